@@ -500,10 +500,12 @@ func c15Ligatures(r *run.Run) {
 func init() {
 	Register("C15", func(r *run.Run) {
 		r.Rule = "bounded exhaustive enumeration of script lists / feature switches / languages, of generator fonts x all short strings, of kern tables and of ligature-character subsets; reference pipeline built from the reference shaper and specification readers"
-		r.Assume = []string{"lookup selection inside the layout comparison uses the library's FindLookups (checked separately)", "determinism across calls observed over 25 repetitions (no controlled map-order seam yet)"}
+		r.Assume = []string{"lookup selection inside the layout comparison uses the library's FindLookups (checked separately)", "determinism across calls: 25 repetitions inside C15.findlookups, and every map iteration order of the seam's alphabet in C15.map-order*"}
 		c15FindLookups(r)
 		c15Layout(r)
 		c15Kern(r)
 		c15Ligatures(r)
+		c15MapOrderFind(r)
+		c15MapOrder(r)
 	})
 }
